@@ -307,6 +307,18 @@ impl Visitor<Diagnostic> for LibraryRenderer {
         Ok(())
     }
 
+    // 2.3.3.1
+    fn visit_simple_declaration(
+        &mut self,
+        node: &SimpleDeclaration,
+    ) -> Result<Self::Value, Diagnostic> {
+        self.visit_type(&node.type_name)?;
+
+        self.write_ws(":");
+
+        self.visit_initial_value_assignment_kind(&node.spec_and_init)
+    }
+
     fn visit_late_bound_declaration(
         &mut self,
         node: &LateBoundDeclaration,
